@@ -374,7 +374,7 @@ def run(ctx):
     gid = bytes.fromhex(first.split()[1].split("=")[1])
     dump = S.parse_dump(first.split(" ", 2)[2])
     known = [(bytes.fromhex(c["id"]), s["first"] + k) for s in dump["segs"] for k, c in enumerate(s["cmds"])]
-    mult = 12 if ctx.thorough else 1
+    mult = 5 if ctx.thorough else 1
     valid = gen_sync_types(r, 110 * mult, gid)
     cases = {
         "decode": valid + [mutate(r, b) for b in valid for _ in range(2)] + random_bytes(r, 200 * mult),
